@@ -96,8 +96,12 @@ LEVEL_TEXT = ('BufferAsyncCalls is modelled step for step as an executable macro
               'wait_returns (from any reachable live state with no slow producer in the way, FnOk; Advance>=timeout; FnOk makes every '
               'pending wait() return — cancel or not, any number of waiters).  Tied to /repo by running the real class under a '
               'virtual-time loop on the enumerated / random event lists, incl. real foreign threads going through the public API, and '
-              'comparing every observation with the model inside Coq (vm_compute); the monitor Case_C07.ok re-decides barrier / '
-              'shutdown / settled on the implementation trace.')
+              'comparing every observation with the model inside Coq (vm_compute); the monitor Case_C07.ok = ok_shut && ok_walk re-decides '
+              'barrier / shutdown / settled on the implementation trace.  shutdown_monitor_complete / _sound (the shutdown part accepts '
+              'every model trace; acceptance means: no DaemonEnded before the first Shutdown, exactly [DaemonEnded] in its step, '
+              'nothing afterwards); walk_monitor_sound (model-free: at every observed WaitRet the barrier statement holds for the '
+              'script and the observations before it; settled scripts see every accepted wait() return).  Completeness of the walk '
+              'part is not proved.')
 LEVEL_NOTE = ('trusted: Coq kernel + vm_compute; no axioms (Print Assumptions: closed under the global context); asyncio primitives are '
               'modelled and validated only by the correspondence runs; harness/buffer_drv.py, harness/vloop.py; Case_Buffer.v, Case_C07.v.  '
               'The model describes the repaired code (fix F3: the daemon re-raises its own cancellation); the unrepaired behaviour is '
